@@ -104,7 +104,11 @@ func writeReplay(prop string, js *JobSpec, pr *sx.PathResult, idx int, known map
 	}
 	ctx, cancel := context.WithTimeout(context.Background(), 300*time.Second)
 	defer cancel()
-	c := exec.CommandContext(ctx, "go", "test", "-v", "-vet=off", "-count=1", "-timeout", "120s", "-run", "^TestVerifReplay$", "-overlay", ovPath, relPkg)
+	count := "-count=1"
+	if js.ReplayCount > 1 {
+		count = fmt.Sprintf("-count=%d", js.ReplayCount)
+	}
+	c := exec.CommandContext(ctx, "go", "test", "-v", "-vet=off", count, "-timeout", "120s", "-run", "^TestVerifReplay$", "-overlay", ovPath, relPkg)
 	c.Dir = repoDir
 	c.Env = append(os.Environ(), "VERIF_REPLAY="+modelPath, "GOFLAGS=-mod=mod", "GOPROXY=off", "GOSUMDB=off", "GOTOOLCHAIN=local")
 	var buf bytes.Buffer
@@ -114,6 +118,15 @@ func writeReplay(prop string, js *JobSpec, pr *sx.PathResult, idx int, known map
 	out.Output = buf.String()
 	os.WriteFile(filepath.Join(dir, "native_output.txt"), buf.Bytes(), 0644)
 	m := resultRe.FindStringSubmatch(out.Output)
+	if js.ReplayCount > 1 {
+		// any failing iteration counts
+		for _, mm := range resultRe.FindAllStringSubmatch(out.Output, -1) {
+			if mm[1] != "ok" {
+				m = mm
+				break
+			}
+		}
+	}
 	switch {
 	case m != nil:
 		out.Result = m[1]
